@@ -312,3 +312,85 @@ class CoerceSeqNumberFirst(_CoerceSeq):
 
 
 ALL += ["CoerceSeqQQ", "CoerceSeqQQQ", "CoerceSeqNumberFirst"]
+
+
+class SetItem(Contract):
+    """a[index] = q (C01 'assigning into an array', C18 item assignment, C04-style value law): a value of another
+    dimension is refused and the target keeps numbers and unit; otherwise the selected elements hold the SAME
+    physical quantity expressed in the target's unit (zero point included), the target keeps its unit, the value
+    is untouched.  Library design decision kept out of the refusal: a quantity whose unit equals the plain
+    dimensionless unit is stored by its number (like a bare number)."""
+    name = "unyt.array.unyt_array.__setitem__"
+    properties = ("C01", "C18", "C16")
+    callsite_disabled = True
+    vcls = "unyt_quantity"
+
+    def formals(self, it):
+        v = N.make_unyt_array(it, "value", cls=self.vcls)
+        return {"self": N.make_unyt_array(it, "self"), "item": Opaque("index"), "value": v}
+
+    def track(self, it, a):
+        from pyvc.unyt_domain import track_unit
+        N.track_array(it, "self", a.self)
+        N.track_array(it, "value", a.value)
+        track_unit(it, "u_self", a.self.fields["units"])
+        track_unit(it, "u_value", a.value.fields["units"])
+
+    def requires(self, it, a):
+        P = it.domain.prefix_table(it)
+        out = []
+        for n, x in (("target", a.self), ("value", a.value)):
+            u = x.fields["units"]
+            out.append(("unit of the %s consistent with its table, non-empty string" % n,
+                        z3.And(S.unit_wf(u, P), z3.Length(S.ustr(u)) >= 1)))
+        return out
+
+    def snapshot(self, it, a):
+        return {"self": snapshot_array(a.self), "value": snapshot_array(a.value)}
+
+    def plain_number(self, it, a):
+        from .ufunc import units_equal
+        return units_equal(it, a.value.fields["units"], it.domain.null_unit(it))
+
+    def raises(self, it, a):
+        us, uv = a.self.fields["units"], a.value.fields["units"]
+        return {"UnitConversionError": z3.And(z3.Not(S.dim_eq(S.dim(us), S.dim(uv))), z3.Not(self.plain_number(it, a)))}
+
+    def ensures(self, it, a, r, old):
+        from .ufunc import units_equal
+        P = it.domain.prefix_table(it)
+        b = N.arr_buf(a.self)
+        us, uv = old["self"]["units"], old["value"]["units"]
+        for s_ in old.values():
+            it.ctx.instantiate(s_["elem"], z3.RealVal(0), z3.RealVal(1))
+        out = [("C18: the target keeps its unit", a.self.fields["units"] is us),
+               ("C18: the target keeps its memory (assignment in place)", b is old["self"]["buf"]),
+               ("returns None", r is None)]
+        if getattr(b, "assigned_from", None) is not None:
+            exact = z3.Or(z3.Not(units_equal(it, us, uv)),
+                          z3.And(S.scale(us) == S.scale(uv), S.eff_offset(us, P) == S.eff_offset(uv, P)))
+            out.append(("C01/C18: an assigned element holds the value's physical quantity in the target's unit",
+                        z3.Implies(z3.And(exact, z3.Not(self.plain_number(it, a))),
+                                   S.SI(b.elem, us, P) == S.SI(old["value"]["elem"], uv, P))))
+        else:
+            out.append(("C18: elements that were not selected keep their numbers",
+                        True if b.elem is old["self"]["elem"] else to_real(b.elem) == to_real(old["self"]["elem"])))
+        return out + unchanged("the assigned value", a.value, old["value"])
+
+    def on_raise(self, it, a, old, exc):
+        b = N.arr_buf(a.self)
+        return [("C01/C18: a refused assignment leaves the target's numbers unchanged",
+                 True if b.elem is old["self"]["elem"] else to_real(b.elem) == to_real(old["self"]["elem"])),
+                ("C01/C18: a refused assignment leaves the target's unit unchanged",
+                 a.self.fields["units"] is old["self"]["units"])] + unchanged("the assigned value", a.value, old["value"])
+
+    def canary(self, it, a, r, old):
+        return z3.BoolVal(False)
+
+
+class SetItemArray(SetItem):
+    tag = "array value"
+    vcls = "unyt_array"
+
+
+ALL += ["SetItem", "SetItemArray"]
